@@ -199,11 +199,13 @@ type State struct {
 	seen     map[ssa.Value]Term // ghost: keys already produced by a map range; position of a string range
 	dom0     map[ssa.Value]Term
 	probe    map[string]bool // when non-nil: records the heaps read (used to detect loop-variant address expressions)
+	defers   []*ssa.Defer    // deferred calls registered on this path (run in reverse order at RunDefers)
+	ghostGen int             // like havocGen, for the ghost heaps (event trace, output counter): only whole-state havocs that include them
 	havocGen int             // generation of whole-heap havocs: heaps first used later get a generation-specific constant
 }
 
 func (s *State) clone() *State {
-	n := &State{u: s.u, guard: s.guard, alloc: s.alloc, havocGen: s.havocGen, heaps: make(map[string]Term, len(s.heaps)), locals: make(map[*ssa.Alloc]Term, len(s.locals)), seen: make(map[ssa.Value]Term, len(s.seen)), dom0: s.dom0}
+	n := &State{u: s.u, guard: s.guard, alloc: s.alloc, havocGen: s.havocGen, ghostGen: s.ghostGen, defers: append([]*ssa.Defer(nil), s.defers...), heaps: make(map[string]Term, len(s.heaps)), locals: make(map[*ssa.Alloc]Term, len(s.locals)), seen: make(map[ssa.Value]Term, len(s.seen)), dom0: s.dom0}
 	for k, v := range s.heaps {
 		n.heaps[k] = v
 	}
@@ -223,9 +225,13 @@ func (s *State) heap(name, sort string) Term {
 	if t, ok := s.heaps[name]; ok {
 		return t
 	}
-	if s.havocGen > 0 {
+	gen := s.havocGen
+	if isGhostHeap(name) {
+		gen = s.ghostGen
+	}
+	if gen > 0 {
 		s.u.heapInit(name, sort)
-		cn := fmt.Sprintf("%s!gen%d", name, s.havocGen)
+		cn := fmt.Sprintf("%s!gen%d", name, gen)
 		_, seen := s.u.D.consts[sanitize(cn)]
 		t := s.u.D.Const(cn, sort)
 		if !seen {
